@@ -65,6 +65,10 @@ def _load_fid(fid, lazy=None, **kw):
     from fontTools.ttLib import TTFont
 
     kind, rest = fid.split(":", 1)
+    if kind == "gen":
+        from . import corpus
+
+        return TTFont(io.BytesIO(corpus.gen_bytes(fid)), lazy=lazy, **kw)
     if kind == "bin":
         num = int(rest.split("#")[1]) if "#" in rest else -1
         with open(tpath(rest.split("#")[0]), "rb") as fh:
@@ -252,10 +256,48 @@ def p_merge(job, tmpdir):
     return out, {}
 
 
-PIPES = dict(recompile=p_recompile, ttx=p_ttx, fea=p_fea, subset=p_subset, instance=p_instance, varbuild=p_varbuild, merge=p_merge)
+def p_genbuild(job, tmpdir):
+    """varLib.build of a generated designspace (vf.gen_designspace spec carried by the job)."""
+    import contextlib
+
+    from fontTools import varLib
+
+    from . import gen_designspace as G
+    from .runner import from_jsonable
+
+    spec = from_jsonable(job["spec"])
+    exp = G.expand(spec)
+    fonts = [G.build_master(spec, exp, mi)[0] for mi in range(len(spec["masters"]))]
+    doc = G.build_document(spec, fonts)
+    with contextlib.redirect_stdout(io.StringIO()):
+        vf, _, _ = varLib.build(doc, optimize=spec["optimize"])
+    return vf, {}
+
+
+def p_genfea(job, tmpdir):
+    """feaLib compilation of a generated feature program (vf.gen_fea) onto its skeleton font."""
+    from fontTools.feaLib.builder import addOpenTypeFeaturesFromString
+
+    from . import gen_fea
+
+    from fontTools.ttLib import TTFont
+
+    font = TTFont(io.BytesIO(gen_fea.skeleton_bytes()), recalcTimestamp=False)
+    addOpenTypeFeaturesFromString(font, job["text"])
+    return font, {}
+
+
+PIPES = dict(recompile=p_recompile, ttx=p_ttx, fea=p_fea, subset=p_subset, instance=p_instance, varbuild=p_varbuild, merge=p_merge, genbuild=p_genbuild, genfea=p_genfea)
 
 
 def run_pipeline(job, tmpdir):
+    if job.get("gen_specs"):
+        # generated corpus fonts are specified by the parent (generation must not depend on this process)
+        from . import corpus
+        from .runner import from_jsonable
+
+        for fid, spec in job["gen_specs"].items():
+            corpus.register_generated(fid, from_jsonable(spec))
     return PIPES[job["pipe"]](job, tmpdir)
 
 
@@ -326,6 +368,11 @@ def enumerate_jobs(tier, seed):
     for e in _pick(ttxs, len(ttxs) if thorough else 16, rnd):
         J.append(dict(pipe="recompile", name="recompile:" + e["id"], fid=e["id"], touch="all", recalcTimestamp=rnd.random() < 0.5, recalcBBoxes=rnd.random() < 0.7, cost=2 * e["size"]))
 
+    # generated fonts (table shapes the test data lacks), reopened lazily and recompiled
+    gens = [e for e in fonts if e["id"].startswith("gen:")]
+    for e in _pick(gens, len(gens) if thorough else 20, rnd):
+        J.append(dict(pipe="recompile", name="recompile:" + e["id"], fid=e["id"], touch="all", recalcTimestamp=rnd.random() < 0.5, recalcBBoxes=rnd.random() < 0.7, flavor=rnd.choice([None, None, "woff"]), cost=2 * e["size"]))
+
     # -- TTX import
     cff2 = [e["id"] for e in ttxs if "CFF2" in e["tables"]]
     ids = [e["id"] for e in ttxs]
@@ -370,6 +417,34 @@ def enumerate_jobs(tier, seed):
     for ds, d in designspace_candidates():
         J.append(dict(pipe="varbuild", name="varbuild:%s:%s" % (ds, d), ds=ds, masters=d, optimize=True, cost=120000))
 
+    # -- generated designspaces (vf.gen_designspace, the C10 generator) and generated feature programs (vf.gen_fea, C11)
+    import hypothesis
+    from hypothesis import given
+
+    from . import gen_designspace, gen_fea
+    from .runner import hyp_settings, to_jsonable
+
+    specs = []
+
+    @hypothesis.seed(subseed(seed, "c16-genbuild"))
+    @hyp_settings(240 if thorough else 48)
+    @given(gen_designspace.specs(max_masters=5))
+    def draw_specs(spec):
+        specs.append(spec)
+
+    draw_specs()
+    for i, spec in enumerate(specs):
+        if any(gen_designspace.float_inverse_overshoots_maximum(a, d) for m in spec["masters"] for a, d in zip(spec["axes"], m["loc"])):
+            continue
+        J.append(dict(pipe="genbuild", name="genbuild:%d" % i, spec=to_jsonable(spec), cost=150000))
+    for i in range(300 if thorough else 40):
+        ps = subseed(seed, "c16-genfea", i)
+        try:
+            text = gen_fea.print_program(gen_fea.gen_program(ps))
+        except Exception:
+            continue
+        J.append(dict(pipe="genfea", name="genfea:%d" % i, text=text, cost=30000))
+
     # -- merging
     J.append(dict(pipe="merge", name="merge:CFFFont1+2", fids=["ttx:merge/data/CFFFont1.ttx", "ttx:merge/data/CFFFont2.ttx"], cost=300000))
     tt = [e for e in fonts if "glyf" in e["tables"] and not e["variable"] and e["size"] < 60000 and "/aots/" not in e["id"] and "#" not in e["id"] and e.get("flavor") is None and e["id"].startswith("bin:")]
@@ -388,4 +463,7 @@ def enumerate_jobs(tier, seed):
     for j in J:
         assert j["name"] not in names, j["name"]
         names.add(j["name"])
+        gfids = [f for f in ([j.get("fid")] + list(j.get("fids", []))) if f and f.startswith("gen:")]
+        if gfids:
+            j["gen_specs"] = {f: to_jsonable(corpus.gen_spec(f)) for f in gfids}
     return J
